@@ -183,11 +183,4 @@ def clauses : List (String × (Input → Trace → Bool)) :=
 
 def holds (i : Input) (t : Trace) : Bool := clauses.all fun c => c.2 i t
 
-/-- known finding `tbtEmptyDetails`: a `TestByTestResult` in the graph and an error / failure / expected
-failure reported with an empty details dict (`_err_to_details` raises `ValueError`) -/
-def tbtEmptyDetails (i : Input) : Bool :=
-  i.shape.hasTbt && i.hist.any fun
-    | .add .error _ (.details []) | .add .failure _ (.details []) | .add .xfail _ (.details []) => true
-    | _ => false
-
 end TTV.Spec.C08
